@@ -75,9 +75,8 @@ TESTED_NOT_PROVED = [
     "(describesb, C04_identity_glue_any_rule) and the re-match path is covered by correspondence and oracle only",
     "strategies comp / bt: proved to regenerate when the substrate has fewer components than the pattern or the identity separates the pattern "
     "components (bt also in the strict_cc_count guard region), refuted otherwise (C04_comp_bt_refuted, C04_comp_guard_refuted: 2 + 5 known-finding "
-    "keys) - but, like C06's comp_spec / bt_spec, only 'for every embed_threshold from some T0 on' (T0 = C06's comp_bound): that the default "
-    "threshold 5000 is large enough for a given input is not proved; the correspondence compares the raw matches under the default threshold "
-    "with the model's own enumeration when the graphs are small",
+    "keys), for every embed_threshold not below C06's explicit bound comp_bound (premise of the theorems, not evaluated per case: the correspondence "
+    "compares the raw matches under the default threshold with the model's own enumeration when the graphs are small)",
     "the _explicit_h stage: the executable model visits the atoms of a hydrogen-transfer group in sorted order, the code in Python-set order; "
     "the two facts the default-mode theorems rest on (the stage keeps the folded reaction; it does not raise) are proved for EVERY order "
     "(C04_explicit_h_any_order_keeps_reaction, C04_any_match_explicit_h_total_any_order), the object-level theorems themselves are stated for the "
@@ -1160,7 +1159,7 @@ def gen_cases(tier, rng):
     return prepare_all(cases)
 
 
-LEVEL_TEXT = ("Machine-checked proof (Coq, 44 theorems) over an executable model of the round trip reaction -> template (ITS construction, reaction centre, "
+LEVEL_TEXT = ("Machine-checked proof (Coq, 46 theorems) over an executable model of the round trip reaction -> template (ITS construction, reaction centre, "
               "SynRule preparation, _invert_template) -> SynReactor OBJECT on the reaction's own reactants / products (options, pattern preparation, "
               "engine call through C06's model of find_subgraph_mappings, pruning by rule automorphisms through C11's model, _glue_graph, _explicit_h, "
               "its_list / smarts_list with their caches, reverse_reaction). Strategy ALL, both branches of the precondition: under C06's contract for "
@@ -1171,7 +1170,7 @@ LEVEL_TEXT = ("Machine-checked proof (Coq, 44 theorems) over an executable model
               "at most as many bonds before as after - a boolean evaluated on every case) - for the full ITS always and for the centre exactly when no atom outside "
               "the centre changes charge or hydrogen count, forwards and backwards. Strategies comp / bt: proved to regenerate whenever the substrate has "
               "fewer components than the pattern or the identity separates the pattern components (bt also in the strict_cc_count guard region; for "
-              "every embed_threshold from C06's bound on), and REFUTED otherwise by witnesses (known findings: identity not separating; comp guard region). Reads of one reactor object in any order and number equal fresh reads (and the exact stale "
+              "every embed_threshold, the default included, that is not below C06's explicit bound comp_bound), and REFUTED otherwise by witnesses (known findings: identity not separating; comp guard region). Reads of one reactor object in any order and number equal fresh reads (and the exact stale "
               "state after a StopIteration is described). The model is tied to the Python code by comparing every intermediate graph, the raw matches "
               "(enumerated by the model's verified enumerator under the same options), the kept mappings and the VALUE of every read of reactor objects "
               "on corpus reactions, their atom-map renumberings and SMILES rewritings on every run; the property itself is run end to end by an "
